@@ -53,7 +53,11 @@ def g_case(draw, allow_var=True, max_rows=None):
     else:
         rel = None
         alpha = gen.choice(draw, [0.0, 1.0, 0.5, draw(gen.st.floats(0, 1))])
-    c = {"prior": prior, "X": X, "upd": [bool(u) for u in upd], "relevance": rel, "alpha": float(alpha),
+        if gen.choice(draw, [False, False, True]):
+            # one fixed ratio per component, handed over as an array (0 and 1 included)
+            alpha = np.clip(r.uniform(-0.2, 1.2, C), 0.0, 1.0)
+    c = {"prior": prior, "X": X, "upd": [bool(u) for u in upd], "relevance": rel,
+         "alpha": (np.array(alpha, dtype=float) if np.ndim(alpha) else float(alpha)),
          "starve": bool(starve), "count_floor": gen.choice(draw, [EPS, EPS, 1e-6, 1e-2, 0.3]), "scales": scales}
     c["how"] = gen.presentation_for(draw, c)
     return c
@@ -71,7 +75,7 @@ def map_machine(case, cap, prior_machine=None, thr=None):
         update_variances=case["upd"][1],
         update_weights=case["upd"][2],
         mean_var_update_threshold=case["count_floor"],
-        map_alpha=case["alpha"],
+        map_alpha=(np.array(case["alpha"], dtype=float) if np.ndim(case["alpha"]) else case["alpha"]),
         map_relevance_factor=case["relevance"],
     )
     return ubm, g
